@@ -21,7 +21,7 @@ RULE = ("cases = trial kind x (restricted | unrestricted propagator) x (n_up,n_d
         "symmetric) x E_shift x complex non-orthonormal walker; dt ladder 0.02/0.01/0.005; window cases push |I| outside [1e-3,100], use old "
         "weights near the product cap, and inject NaN/inf fields; non-trivial = residual at the coarsest dt above 1e-9 so the order can be "
         "measured, or a window branch actually taken")
-MIN_NONTRIVIAL = {"quick": 10, "thorough": 100}
+MIN_NONTRIVIAL = {"quick": 10, "thorough": 60}
 TIMEOUT = {"quick": 2400, "thorough": 10800}
 ASSUMPTIONS = ["||H|| = O(1), dt <= 0.02 (asymptotic regime of the ladder)", "n_exp_terms = 6 (default)",
                "hook H1 exposes the complex importance function and theta of propagate(); the weight law is re-derived from those observations"]
